@@ -14,9 +14,17 @@ from harness import core, tlc
 from props import misc_c38 as mc
 
 INVS = ["TypeOK", "RefOK", "Monotone", "FrameIsIndex", "Verdict"]
+NOWIDE = dict(WideChars=set(), WideLen=1, WideChars2=set(), WideLen2=1)
 QUICK = dict(ValChars={"1", "a", "."}, Digits={"1"}, MaxLen=5, MaxSpaces=1, SpaceMaxLen=4, AllParams=False)
 THOROUGH = dict(ValChars={"0", "1", "a", "."}, Digits={"0", "1"}, MaxLen=6, MaxSpaces=1, SpaceMaxLen=6, AllParams=False)
 SIM = dict(ValChars={"0", "1", "2", "a", "b", "."}, Digits={"0", "1", "2"}, MaxLen=12, MaxSpaces=3, SpaceMaxLen=12, AllParams=False)
+for _c in (QUICK, THOROUGH, SIM):
+    _c.update(NOWIDE)
+# wide digits: '8' stands for a 16-digit block, '9' for a 19-digit block (decoded by the codec to numerals of integers
+# beyond 2**53); no '0' and no '.' so that numeral <-> integer is one-to-one and no float marble equals an integer key
+WIDE_QUICK = dict(ValChars={"1", "8", "9", "a"}, Digits={"1", "8", "9"}, MaxLen=4, MaxSpaces=1, SpaceMaxLen=3, AllParams=False,
+                  WideChars={"8"}, WideLen=16, WideChars2={"9"}, WideLen2=19)
+WIDE_THOROUGH = dict(WIDE_QUICK, MaxLen=5, SpaceMaxLen=4, AllParams=True)
 
 # (unit, timespan given as timedelta, falsy lookup values, error object given, HistoricalScheduler instead of TestScheduler)
 # the third variant's lookup maps its keys TO the strings "|" / "#" (and has the terminal characters as keys)
@@ -28,7 +36,8 @@ def _job(ln):
     n = 0
     for unit, td, falsy, we, hist, term in VARIANTS:
         n += 1
-        out += mc.judge(ln["scn"], ln["obs"], unit=unit, as_timedelta=td, falsy=falsy, with_error=we, hist=hist, term=term)
+        out += mc.judge(ln["scn"], ln["obs"], unit=unit, as_timedelta=td, falsy=falsy, with_error=we, hist=hist, term=term,
+                        wide_profile=n - 1)
     return n, out
 
 
@@ -44,7 +53,8 @@ def run(tier: str) -> int:
     ck = core.Check("C38", tier)
     consts = QUICK if tier == "quick" else THOROUGH
     ck.rule = ("every string of the documented marble grammar up to the stated length over the alphabet '-', value characters "
-               "(digits, a letter, '.'; multi-character values), '(' ')' ',' ' ' '|' '#', enumerated character by character by TLC on "
+               "(digits, a letter, '.'; multi-character values; wide digits = blocks of 16 / 19 digit characters decoded to numerals of integers "
+               "beyond 2**53, as elements and as integer lookup keys), '(' ')' ',' ' ' '|' '#', enumerated character by character by TLC on "
                "Marbles.tla, x parameter points (timespan, shift, lookup keys, raise_stopped); each given to parse, "
                "from_marbles/cold, hot and the marbles_testing context under three codec variants (time unit 1 / 0.5 / 2 s, float or "
                "timedelta, plain or falsy lookup values, error object given or defaulted, TestScheduler or HistoricalScheduler with an "
@@ -54,6 +64,11 @@ def run(tier: str) -> int:
                   allow_violation=False)
     ck.add_tlc(res, "exhaustive " + json.dumps({k: sorted(v) if isinstance(v, set) else v for k, v in consts.items()}))
     lines = list(res.lines)
+    wconsts = WIDE_QUICK if tier == "quick" else WIDE_THOROUGH
+    wres = tlc.run("Marbles", tlc.cfg_text(wconsts, invariants=INVS + ["Export"]), workers=1, timeout=3000, xmx="3g",
+                   allow_violation=False)
+    ck.add_tlc(wres, "exhaustive, wide digits " + json.dumps({k: sorted(v) if isinstance(v, set) else v for k, v in wconsts.items()}))
+    lines += wres.lines
     ck.exhaustive = True
     n_sim = 20000   # walks; every complete prefix of a walk is exported, so this is ~10^5 strings
     if tier != "quick":
@@ -81,6 +96,13 @@ def run(tier: str) -> int:
         "multi_char_values": sum(1 for ln in lines if any(len(m["v"][1]) > 1 for m in ln["obs"]["msgs"])),
         "int_values": sum(1 for ln in lines if any(m["v"][0] == "int" for m in ln["obs"]["msgs"])),
         "float_values": sum(1 for ln in lines if any(m["v"][0] == "float" for m in ln["obs"]["msgs"])),
+        "wide_int_values": sum(1 for ln in lines if any(m["v"][0] == "int" and set(m["v"][1]) & {"8", "9"} for m in ln["obs"]["msgs"])
+                               and ln["scn"]["wide"]["a"]),
+        "wide_int_in_group": sum(1 for ln in lines if ln["scn"]["wide"]["a"] and "(" in ln["scn"]["s"] and any(
+            m["v"][0] in ("int", "nlk") and set(m["v"][1]) & {"8", "9"} for m in ln["obs"]["msgs"])),
+        "wide_int_looked_up": sum(1 for ln in lines if any(m["v"][0] == "nlk" for m in ln["obs"]["msgs"])),
+        "wide_int_key_not_matching": sum(1 for ln in lines if ln["scn"]["par"]["nk"] and any(
+            m["v"][0] == "int" and set(m["v"][1]) & {"8", "9"} for m in ln["obs"]["msgs"])),
         "looked_up": sum(1 for ln in lines if any(m["v"][0] == "lk" for m in ln["obs"]["msgs"])),
         "rejected": sum(1 for ln in lines if ln["obs"]["rejected"]),
         "after_terminal_kept": sum(1 for ln in lines if not ln["scn"]["par"]["rs"] and any(
@@ -105,7 +127,9 @@ def run(tier: str) -> int:
     ck.assumptions = [
         "asserted domain = the documented grammar only: no unbalanced/nested parentheses, no '-' inside a group, no ',' outside a group, no empty "
         "group or empty group element, '|'/'#' inside a group only as whole elements, no space between two value characters",
-        "lookup keys are texts that are not numerals (the documentation's examples); a numeral marble is never looked up",
+        "lookup keys are texts that are not numerals (the documentation's examples), and - wide-digit run only - integers (the lookup is "
+        "typed Mapping[str | float, Any] and converts 'an element', which for a numeral marble is the number): a numeral marble is looked up "
+        "by its integer only; that run's alphabet has no '0' and no '.', so no two numerals write the same number",
         "time units are binary fractions so that index*timespan+shift is exact in floating point",
         "marbles_testing().hot: a marble at the first character is documented to be skipped (it is due at the subscription instant); skipped or "
         "delivered are both accepted; exp() is compared for integral timespans only (it truncates times to int - noted, outside the statement)",
@@ -118,7 +142,8 @@ def run(tier: str) -> int:
 def replay(rec) -> int:
     api = rec["api"].split(".")[0]
     fails = mc.judge(rec["scn"], rec["expected"], unit=rec.get("unit", 1.0), as_timedelta=rec.get("as_timedelta", False),
-                     falsy=rec.get("falsy", False), with_error=rec.get("with_error", True), hist=rec.get("hist", False), term=rec.get("term", False), apis=(api,))
+                     falsy=rec.get("falsy", False), with_error=rec.get("with_error", True), hist=rec.get("hist", False), term=rec.get("term", False),
+                     wide_profile=rec.get("wide_profile", 0), apis=(api,))
     fails = [f for f in fails if f["api"] == rec["api"]]
     print(json.dumps(fails[0], default=str)[:2000] if fails else "replay: observation allowed by the spec")
     return 1 if fails else 0
